@@ -1,5 +1,6 @@
 import GuppyVerif.Lemmas.C08Bfs
 import GuppyVerif.Lemmas.C08Complete
+import GuppyVerif.Lemmas.C08Used
 import GuppyVerif.Props.C09
 /-! # C08 — Use-before-definition and path-dependent types are rejected exactly
 
@@ -240,6 +241,14 @@ theorem check_spec {U : UCfg} (hU : U.WF) (fuel : Nat) (r : Except (List Err) Co
     subst he
     exact (branchtype_sound hU hA fuel es h x hx).1
   · cases h
+
+/-- **What "read" means at statement level** (`VariableVisitor`): a block counts as reading `x`
+    iff one of its statements reads `x` before any statement of the block assigns it. -/
+theorem used_iff_read_before_write (U : UCfg) (b : Blk) (x : Var) :
+    x ∈ U.cfg.used b ↔ ReadBeforeWrite x (U.events b) := by
+  show x ∈ usedOf (U.events b) [] [] ↔ _
+  rw [mem_usedOf_gen]
+  simp
 
 /-! ## Non-vacuity: `if c: x = 1` / `else: pass`, then read `x`; and a re-typed variable. -/
 
